@@ -195,7 +195,7 @@ func TestVerif_C08(t *testing.T) {
 	vfStats.Property = "C08"
 	if vfOnlySub("gen") {
 		vfRun(t, vfSub[c08Case]{
-			Prop: "C08", Name: "gen", Checks: vfN(12000, 1500000),
+			Prop: "C08", Name: "gen", Checks: vfN(12000, 3000000),
 			Gen: func(t *rapid.T) c08Case {
 				return c08Case{Doc: vfB(jGenDoc(t, rapid.IntRange(1, 6).Draw(t, "depth")).String())}
 			},
@@ -208,7 +208,7 @@ func TestVerif_C08(t *testing.T) {
 	if vfOnlySub("large") {
 		// documents larger than the default limit: arrays/objects of many generated members
 		vfRun(t, vfSub[c08Case]{
-			Prop: "C08", Name: "large", Checks: vfN(600, 60000),
+			Prop: "C08", Name: "large", Checks: vfN(600, 120000),
 			Gen: func(t *rapid.T) c08Case {
 				n := rapid.IntRange(20, 200).Draw(t, "members")
 				obj := rapid.Bool().Draw(t, "obj")
